@@ -205,7 +205,8 @@ def check_c09(pid, tier, replay=None):
                   os.path.join(b, "src", "rolling_hash", "rolling_hash2_table.h"), vlib.LEAN])
     chk.oblige("translator: rolling_hash2_table1[256] extracted from rolling_hash2_table.h", r.returncode == 0, (r.stdout + r.stderr)[-200:])
     thms = ["IsalVerif.Props.C09.C09_run", "IsalVerif.Props.C09.C09_hash", "IsalVerif.Props.C09.C09_boundaries",
-            "IsalVerif.Props.C09.C09_split", "IsalVerif.Props.C09.C09_split_progress", "IsalVerif.Props.C09.C09_mask_gen"]
+            "IsalVerif.Props.C09.C09_split", "IsalVerif.Props.C09.C09_split_progress", "IsalVerif.Props.C09.C09_mask_gen",
+            "IsalVerif.Props.C09.F4_old_code_witness"]
     failed = vlib.lean_obligations(chk, "IsalVerif.Props.C09", thms, extra_targets=["IsalVerif.GenProps.RollingTable", "isal_model"])
     ax, _ = vlib.print_axioms("IsalVerif.GenProps.RollingTable", ["IsalVerif.GenProps.rollingTable_pinned"])
     okp = ax.get("IsalVerif.GenProps.rollingTable_pinned") is not None and not failed
@@ -220,7 +221,7 @@ def check_c09(pid, tier, replay=None):
     def one(job):
         impl, seed = job
         ops = os.path.join(d, "rops_%s_%d" % (impl, seed)); res = os.path.join(d, "rres_%s_%d" % (impl, seed))
-        rr = subprocess.run([drv, impl, str(seed), str(nops), str(maxlen), ops, res], capture_output=True, text=True)
+        rr = subprocess.run([drv, impl, str(seed), str(nops), str(maxlen), ops, res, "big=1"], capture_output=True, text=True)
         with open(ops) as fh:
             m = subprocess.run([vlib.MODEL_BIN], stdin=fh, capture_output=True, text=True)
         lines = [l for l in open(res).read().split("\n") if l] + [l for l in (rr.stdout + "\n" + rr.stderr).split("\n") if l.startswith(("MONITOR", "SUMMARY"))]
